@@ -275,6 +275,7 @@ fn sweep(t: &mut Tape, full: bool) -> Scenario {
             hop_delay_ns: 2_000,
             jitter_ns: 0,
             ecmp_salt: t.draw(1_000_000),
+            ip_options: None,
         },
         inject: InjectCfg::default(),
         faults: FaultCfg {
@@ -283,7 +284,7 @@ fn sweep(t: &mut Tape, full: bool) -> Scenario {
             scripted: Vec::new(),
             stall_pm: 0,
             stall_max_ns: 0,
-            addr_in_use_pm: 0, addr_in_use_from_round: 0, addr_in_use_udp: false,
+            addr_in_use_pm: 0, addr_in_use_from_round: 0, addr_in_use_udp: false, addr_in_use_burst: None,
             tick_base_ns: 50,
             tick_jitter_ns: 0,
         },
@@ -381,6 +382,81 @@ fn g_clear_midway(t: &mut Tape) -> Scenario {
             .collect();
         sc.net.route_change = Some((at + 1, paths));
     }
+    sc.stable = false;
+    sc.epoch_liveness = false;
+    sc
+}
+
+/// C07: a TCP collision storm of exact length on a silent network, so that the round's 512th
+/// sequence number goes to a probe that is really sent: if the round then wants another probe
+/// the trace must end with the capacity error; if that probe was the last one (max-ttl) the
+/// trace goes on.  The storm may start at the first ttl or after a few probes.
+fn g_capacity_boundary(t: &mut Tape) -> Scenario {
+    use crate::scenario::{Ports, Proto, Strat, TargetBehaviour};
+    let mut sc = fault_enum_base(t.draw(2));
+    let ms = 1_000_000u64;
+    sc.tracer.proto = Proto::Tcp;
+    sc.tracer.strat = Strat::Classic;
+    sc.tracer.ports = Ports::FixedDest(80);
+    sc.tracer.unprivileged = false;
+    sc.tracer.initial_seq = 33_434 + t.draw(20_000) as u16;
+    sc.tracer.first_ttl = 1;
+    sc.tracer.max_inflight = 254;
+    sc.tracer.rounds = 3;
+    sc.tracer.min_round_ns = 0;
+    sc.tracer.max_round_ns = 40 * ms;
+    sc.tracer.grace_ns = 0;
+    sc.tracer.read_timeout_ns = ms / 50;
+    sc.tracer.tcp_connect_timeout_ns = ms / 2;
+    sc.net.target.behaviour = TargetBehaviour::Silent;
+    for path in &mut sc.net.paths {
+        for r in &mut path.routers {
+            r.silent = true;
+        }
+    }
+    // `sent` probes get out in the storm round, the last of them under offset 511 (or one
+    // before / after it: neither may raise the error early or run past the buffer)
+    let sent = 1 + t.draw(8);
+    let skip = t.draw(sent);
+    let len = match t.pick(4) {
+        0 => 511 - sent,
+        1 => 513 - sent,
+        _ => 512 - sent,
+    };
+    sc.tracer.max_ttl = if t.chance(500) { sent as u8 } else { (sent + 1 + t.draw(6)) as u8 };
+    sc.faults.addr_in_use_burst = Some((skip, len));
+    sc.faults.addr_in_use_from_round = t.draw(2);
+    sc.faults.tick_base_ns = 1_000;
+    sc.light = true;
+    sc.stable = false;
+    sc.epoch_liveness = false;
+    sc
+}
+
+/// C05: the state is cleared in the middle of a trace with many short rounds; the figures
+/// that follow are those of the rounds since the clear, under the configured limits (a
+/// sample limit of 1 or 2 in half of the runs, and never equal to the flow limit).
+fn g_clear_stats(t: &mut Tape) -> Scenario {
+    let mut sc = g_stats(t);
+    sc.tracer.rounds = sc.tracer.rounds.clamp(4, 60);
+    sc.clear_after_round = Some(t.draw(sc.tracer.rounds - 2));
+    if t.chance(500) {
+        sc.tracer.max_samples = 1 + t.draw(2) as usize;
+    }
+    if sc.tracer.max_samples == sc.tracer.max_flows {
+        sc.tracer.max_flows += 1;
+    }
+    sc.stable = false;
+    sc.epoch_liveness = false;
+    sc
+}
+
+/// C15: the state is cleared in the middle of a multi-path trace: identifiers are issued
+/// from 1 again and every flow counts the rounds since the clear only.
+fn g_clear_flows(t: &mut Tape) -> Scenario {
+    let mut sc = g_flows(t);
+    sc.tracer.rounds = sc.tracer.rounds.clamp(4, 40);
+    sc.clear_after_round = Some(t.draw(sc.tracer.rounds - 2));
     sc.stable = false;
     sc.epoch_liveness = false;
     sc
@@ -725,9 +801,10 @@ fn sweep_scenario(t: &mut Tape, wide: bool, tier: &str) -> Scenario {
             hop_delay_ns: 50_000,
             jitter_ns: 0,
             ecmp_salt: 7,
+            ip_options: None,
         },
         inject: InjectCfg::default(),
-        faults: FaultCfg { sock_pm: 0, sock_benign_pm: 0, scripted: Vec::new(), stall_pm: 0, stall_max_ns: 0, addr_in_use_pm: 0, addr_in_use_from_round: 0, addr_in_use_udp: false, tick_base_ns: 100, tick_jitter_ns: 0 },
+        faults: FaultCfg { sock_pm: 0, sock_benign_pm: 0, scripted: Vec::new(), stall_pm: 0, stall_max_ns: 0, addr_in_use_pm: 0, addr_in_use_from_round: 0, addr_in_use_udp: false, addr_in_use_burst: None, tick_base_ns: 100, tick_jitter_ns: 0 },
         stable: true,
         light: true,
         mutation: Some(Mutation { field, value, trunc }),
@@ -1002,9 +1079,10 @@ fn fault_enum_base(cfg: u32) -> Scenario {
             hop_delay_ns: 50_000,
             jitter_ns: 0,
             ecmp_salt: 7,
+            ip_options: None,
         },
         inject: InjectCfg::default(),
-        faults: FaultCfg { sock_pm: 0, sock_benign_pm: 0, scripted: Vec::new(), stall_pm: 0, stall_max_ns: 0, addr_in_use_pm: 0, addr_in_use_from_round: 0, addr_in_use_udp: false, tick_base_ns: 100, tick_jitter_ns: 0 },
+        faults: FaultCfg { sock_pm: 0, sock_benign_pm: 0, scripted: Vec::new(), stall_pm: 0, stall_max_ns: 0, addr_in_use_pm: 0, addr_in_use_from_round: 0, addr_in_use_udp: false, addr_in_use_burst: None, tick_base_ns: 100, tick_jitter_ns: 0 },
         stable: true,
         light: true,
         mutation: None,
@@ -1177,6 +1255,7 @@ pub fn registry() -> Vec<PropertyCheck> {
             rule: "long seeded runs (50..1500 short rounds) from boundary and random initial sequences, both maximum-sequence regimes, TCP port-collision storms up to every bind failing; sequence arithmetic monitor over every send attempt plus re-delivery of all previous-round responses; a boundary walk aligns a round start with each value next to the restart limit (pilot run, then initial sequence chosen accordingly) and lets that round use its whole budget; non-trivial/distinct as for C01",
             families: vec![
                 Family { name: "wrap-aligned-storm", gen: g_wrap_aligned, oracle: oracle::c07, opts: opts_light(), quick_runs: 2_000, thorough_runs: 40_000, must_reach: &[], enum_dims: None },
+                Family { name: "capacity-boundary", gen: g_capacity_boundary, oracle: oracle::c07, opts: opts_light(), quick_runs: 1_500, thorough_runs: 40_000, must_reach: &["fault.addr_in_use_burst"], enum_dims: None },
                 Family { name: "full-cycle", gen: g_full_cycle, oracle: oracle::c07, opts: opts_light(), quick_runs: 96, thorough_runs: 2_000, must_reach: &[], enum_dims: None },
                 Family { name: "long-runs", gen: g_long, oracle: oracle::c07, opts: opts_light(), quick_runs: 6_000, thorough_runs: 300_000, must_reach: &[], enum_dims: None },
                 Family { name: "socket-faults", gen: g_sockfaults, oracle: oracle::c07, opts: opts_light(), quick_runs: 40_000, thorough_runs: 1_500_000, must_reach: &[], enum_dims: None },
@@ -1204,6 +1283,7 @@ pub fn registry() -> Vec<PropertyCheck> {
                 Family { name: "stats-long", gen: g_stats, oracle: oracle::c05, opts: opts_full(), quick_runs: 8_000, thorough_runs: 300_000, must_reach: &[], enum_dims: None },
                 Family { name: "swarm", gen: g_base, oracle: oracle::c05, opts: opts_full(), quick_runs: 60_000, thorough_runs: 2_000_000, must_reach: &[], enum_dims: None },
                 Family { name: "socket-faults", gen: g_sockfaults, oracle: oracle::c05, opts: opts_full(), quick_runs: 40_000, thorough_runs: 1_500_000, must_reach: &[], enum_dims: None },
+                Family { name: "clear-midway", gen: g_clear_stats, oracle: oracle::c05, opts: opts_full(), quick_runs: 10_000, thorough_runs: 400_000, must_reach: &[], enum_dims: None },
                 Family { name: "synthetic-rounds", gen: g_synth, oracle: oracle::c05, opts: opts_full(), quick_runs: 20_000, thorough_runs: 600_000, must_reach: &["reach.synthetic_round"], enum_dims: None },
             ],
             assumptions: vec![ASSUME_SIM, ASSUME_CLOCK, "floating point figures are compared with relative tolerance 1e-9 (stddev: 1e-6 against the two-pass formula)"],
@@ -1225,6 +1305,7 @@ pub fn registry() -> Vec<PropertyCheck> {
             families: vec![
                 Family { name: "flows", gen: g_flows, oracle: oracle::c15, opts: opts_full(), quick_runs: 60_000, thorough_runs: 2_500_000, must_reach: &["reach.ecmp_path_1"], enum_dims: None },
                 Family { name: "swarm", gen: g_base, oracle: oracle::c15, opts: opts_full(), quick_runs: 40_000, thorough_runs: 1_500_000, must_reach: &[], enum_dims: None },
+                Family { name: "clear-midway", gen: g_clear_flows, oracle: oracle::c15, opts: opts_full(), quick_runs: 20_000, thorough_runs: 800_000, must_reach: &[], enum_dims: None },
                 Family { name: "synthetic-rounds", gen: g_synth_dense, oracle: oracle::c15, opts: opts_full(), quick_runs: 20_000, thorough_runs: 600_000, must_reach: &["reach.synthetic_round"], enum_dims: None },
             ],
             assumptions: vec![ASSUME_SIM, "position = ttl offset from first-ttl; rounds containing failed or skipped probes are held to the clauses that do not depend on positions"],
